@@ -36,6 +36,8 @@ func checkC18(c *Ctx) {
 	ruleCapsInvalidation(c, "C18.i", []string{"startTLSCommand", "loginCommand", "authenticateCommand", "unauthenticateCommand"})
 	c.rule("C18.j", "a continuation request's outcome is stored before the channel that wakes the literal writer is closed", 1)
 	rulePublishBeforeClose(c, "C18.j", "internal/imapwire", "imapclient")
+	c.rule("C18.k", "the wire-syntax flags of a command are read from the capabilities after the encoder lock is acquired", 3)
+	ruleModeFlagsAfterEncoderLock(c, "C18.k")
 }
 
 func capSubsets(names ...string) [][]string {
